@@ -658,7 +658,8 @@ func (e *Engine) raceCheck(st *State, in ssa.Instruction) {
 				common := false
 				for _, a := range x.lockID {
 					for _, b := range y.lockID {
-						if a == b {
+						// the same mutex, held for writing by at least one side (negative = read lock)
+						if (a == b && a > 0) || a == -b {
 							common = true
 						}
 					}
